@@ -21,7 +21,8 @@ RULE = ("(library) random Node trees (all byte values, non-ASCII labels, deep ne
         "compare unequal. (CLI) `python -m multidecoder` in subprocesses on generated files: --json == tree_to_json(scan(bytes))+"
         "newline for file and stdin; default mode == one line per node in pre-order with the ancestor label chain and escaped "
         "value recomputed by an own walk (zero nodes -> empty output); --replace == root.flatten() when no two substituted "
-        "results overlap; --keywords DIR == in-process build_registry(DIR). distinct_nontrivial = distinct trees / inputs with at "
+        "results overlap; --keywords DIR == in-process build_registry(DIR). The CLI child runs under a random hash seed per case; custom keyword files also list indicators that another decoder reports on the same span. "
+        "distinct_nontrivial = distinct trees / inputs with at "
         "least one node below the root.")
 ASSUMPTIONS = ["json module and repr() of bytes are trusted", "the CLI is started through a launcher that only supplies a stub "
                "multidecoder._version when that generated file is absent from the tree under test"]
